@@ -227,7 +227,7 @@ func c05Run(o *out, input string) {
 		if st == nil {
 			st = &spb.Status{}
 		}
-		o.emit(input, fmt.Sprintf("%d %s %d %s", w.Code, stobs(st), n, hx([]byte(w.Header().Get("Content-Type")))))
+		o.emit(input, fmt.Sprintf("%d %s %d %s", w.Code, stobs(st), n, hx([]byte(w.Result().Header.Get("Content-Type")))))
 	case "twirp":
 		r := httptest.NewRequest("POST", full, strings.NewReader("{}"))
 		r.Header.Set("Content-Type", "application/json")
